@@ -9,6 +9,7 @@ import numpy as np
 
 from .. import core
 from ..core import SKIP
+from . import c10_extra
 
 ID = "C10"
 RULE = ("genomes of 1..4 chromosomes (sizes 0..6; names where one is a prefix of another; names with '_' that are ignored "
@@ -26,7 +27,7 @@ RULE = ("genomes of 1..4 chromosomes (sizes 0..6; names where one is a prefix of
         "END of the genome order. Non-trivial = "
         ">= 2 included chromosomes and some entry touches a chromosome end or position 0")
 EXHAUSTIVE = {"quick": False, "thorough": False}
-MODEL_OPS = {"lookup", "l2g", "g2l", "pileup", "mask", "merge", "clip", "extend", "windows", "sort", "extract", "location"}
+MODEL_OPS = {"lookup", "l2g", "g2l", "pileup", "mask", "merge", "clip", "extend", "windows", "sort", "extract", "location"} | c10_extra.MODEL_OPS
 PARALLEL = 16
 ASSUMPTIONS = [
     "single-contig operations (arithmetics/intervals.py get_pileup, get_boolean_mask, merge_intervals, clip, extend_to_size) are "
@@ -509,6 +510,8 @@ def _call(c):
     from bionumpy.datatypes import LocationEntry
     op, via = c["op"], c.get("via", "genome")
     stranded = bool(c.get("stranded", False))
+    if op in c10_extra.OPS:
+        return c10_extra.call(c)
     if c.get("path", "mem") != "mem":
         return _call_stream(c)
     if op == "lookup":
@@ -618,6 +621,8 @@ _COMP = {"A": "T", "C": "G", "G": "C", "T": "A", "N": "N"}
 
 def oracle(c):
     op, via = c["op"], c.get("via", "genome")
+    if op in c10_extra.OPS:
+        return c10_extra.oracle(c)
     ign = _ign(c)
     rank = _rank(ign)
     sizes = c["sizes"]
@@ -752,6 +757,12 @@ def agree(c, got, exp):
 def agree_model(c, got, m):
     if isinstance(got, dict) and got.get("err") == "raised":
         return isinstance(m, dict) and m.get("err") == "raised"
+    if c["op"] == "gjaccard" and isinstance(m, dict) and "pair" in m:
+        # the Lean model gives (intersection, union) counts; the float is formed here, once, from exact small integers
+        jf = lambda iu: float(iu[0] / iu[1]).hex() if iu[1] else None
+        n = len(m["all"])
+        return got.get("pair") == jf(m["pair"]) and \
+            got.get("all") == [[float(0).hex() if a == b else jf(m["all"][a][b]) for b in range(n)] for a in range(n)]
     if c["op"] == "sort" and c.get("via") == "geometry" and isinstance(got, dict) and "iv" in got and isinstance(m, dict) and "iv" in m:
         # np.argsort on the global start is not stable: compare the key sequence and the multiset
         return [x[:2] for x in got["iv"]] == [x[:2] for x in m["iv"]] and sorted(got["iv"]) == sorted(m["iv"])
@@ -759,6 +770,12 @@ def agree_model(c, got, m):
 
 
 def finding_key(c, got, exp):
+    if c["op"] == "sgeometry" and isinstance(got, dict) and got.get("err") == "not-implemented":
+        return f"sgeometry:get_{c['what']}:not-implemented"
+    return _finding_key(c, got, exp)
+
+
+def _finding_key(c, got, exp):
     kind = "raised" if isinstance(got, dict) and got.get("err") == "raised" else "wrong-result"
     if isinstance(exp, dict) and exp.get("err") == "raised":
         kind = "accepted-out-of-range"
@@ -766,6 +783,8 @@ def finding_key(c, got, exp):
 
 
 def nontrivial(c):
+    if c["op"] in c10_extra.OPS:
+        return c10_extra.nontrivial(c)
     ign = _ign(c)
     if sum(1 for g in ign if not g) < 2:
         return False
@@ -876,7 +895,12 @@ def _pair_cases(top):
 
 
 def cases(tier, rng):
-    _tmpdir()            # created in the parent, before the worker pool forks, so that the parent removes it at exit
+    _tmpdir()
+    yield from c10_extra.cases(tier, rng)
+    yield from _cases_main(tier, rng)
+
+
+def _cases_main(tier, rng):            # created in the parent, before the worker pool forks, so that the parent removes it at exit
     big = tier in ("thorough", "widen")
     # 0. the design-round expectations, stated as plain cases (rediscovered by the comparison, not assumed)
     yield {"op": "merge", "via": "geometry", "names": ["chr1", "chr2"], "sizes": [5, 5], "filt": True,
